@@ -314,6 +314,19 @@ func checkC02(c *Ctx, r *Report) {
 					viol = fmt.Sprintf("%s: %s does not collapse duplicate slashes at all: controller route `/users/` + method route `/list` is documented as /users/list but registered as /users//list", gp.site(pos), urlFn)
 				}
 				r.add("C02.e", "slash-collapse", en+":"+urlFn, en+": the registered path is normalised like the documented one (slash runs of any length collapse)", []string{fd.File + "#" + urlFn}, []string{gp.site(pos)}, viol)
+				// nothing else is done to the path: the documented path (RemoveDuplicateSlash of
+				// controller+route) keeps e.g. a trailing slash, so the registered one must too
+				v2 := ""
+				okCalls := map[string]bool{"urlParamRegex.ReplaceAllString": true, "strings.Contains": true, "strings.ReplaceAll": true, "strings.HasPrefix": true}
+				ast.Inspect(fn.Body, func(n ast.Node) bool {
+					if cl, ok := n.(*ast.CallExpr); ok {
+						if nm := exprString(cl.Fun); !okCalls[nm] {
+							v2 = fmt.Sprintf("%s: %s applies %s to the path: beyond translating {x} and collapsing `//` the registered path must be the documented one (a trimmed or cleaned path loses its trailing slash: the documented `/items/` then answers 404 or a redirect)", gp.site(cl.Pos()), urlFn, nm)
+						}
+					}
+					return true
+				})
+				r.add("C02.e", "vocabulary", en+":"+urlFn+":nothing-else", en+": the URL helper only translates parameters, collapses slashes and roots the path", []string{fd.File + "#" + urlFn}, []string{gp.site(fn.Pos())}, v2)
 			}
 		}
 	}
@@ -322,6 +335,9 @@ func checkC02(c *Ctx, r *Report) {
 	// C02.g the routes generator sees the route list validation accepted
 	ruleNoIRMutation(c, r, "C02.g")
 	checkContextPassThrough(c, r, "C02.g")
+	// the routes the routers are generated from are collected by the visitors: same inventories as C01
+	ruleSkipInventory(c, r, "C02.g", loadSkipTable(c.VerifDir), 6, "core/visitors", "core/metadata", "core/pipeline")
+	ruleEarlyExitInventory(c, r, "C02.g", 10, "core/visitors", "core/metadata")
 
 	// the spec side normaliser (shared with C01.c)
 	ruleSlashCollapse(c, r, "C02.e", "common.RemoveDuplicateSlash", "the documented path collapses slash runs of any length")
